@@ -229,6 +229,23 @@ func c01Random(c *caseCtx) {
 	c01Observe(c, g, d, "")
 }
 
+// large problems: implementations may change strategy (worker goroutines, batching, other sort algorithms) above a size
+func c01Large(c *caseCtx) {
+	method := methods[c.idx%len(methods)]
+	n := 64 + c.rng.Intn(140)
+	if method == "electreIII" {
+		n = 64 + c.rng.Intn(30)
+	}
+	o := genOpts{method: method, nBiases: c.idx % 2, allFire: true, minAlt: n, maxAlt: n, minCrit: 2, maxCrit: 4, allCons: c.rng.Intn(3)}
+	if c.rng.Intn(2) == 0 {
+		o.profile = profTies
+	}
+	g := genRequest(c.rng, o)
+	d := decide(g.body(), false)
+	c.count("large_instances", 1)
+	c01Observe(c, g, d, "large")
+}
+
 func c01TieBlocks(c *caseCtx) {
 	// utility methods / ELECTRE with blocks of identical alternatives
 	method := []string{"weightedSum", "owa", "choquetIntegral", "electreIII"}[c.idx%4]
@@ -272,6 +289,8 @@ func init() {
 			{name: "random", n: tierN(28000, 1000000), unit: 7000, run: c01Random, floors: map[string]int64{"nontrivial": 2000, "with_tie_group": 300}},
 			{name: "random-service", n: tierN(6000, 100000), unit: 3000, run: c01Random, service: true,
 				note: "the same generator and oracle as the stream named in front of the dash, but every request goes through decideHandler of main.go in-process (gin binding, the handler's own request object) after a history of 1..3 unrelated requests (accepted and rejected)"},
+			{name: "large", n: tierN(140, 2800), unit: 10, run: c01Large, floors: map[string]int64{"large_instances": 140},
+				note: "64..203 known alternatives (ELECTRE 64..93), all methods, 0..1 fired biases"},
 			{name: "tieBlocks", n: tierN(4000, 200000), unit: 4000, run: c01TieBlocks, floors: map[string]int64{"with_tie_group": 300}},
 			{name: "majorityShapes", n: func(string) int { return majShapeCount() }, unit: 4000, run: c01MajShapes, exhaustive: true,
 				note: "all outcome sequences of a one-criterion majority tournament for n<=7 alternatives x 5 policies x 3 currentChoice kinds"},
